@@ -145,4 +145,16 @@ PROPS = {
                       "the walk loop is hand-modelled; renewTail/moveTail are NOT modelled: their clauses (bounds, gap-free, not wedged, retention) are evaluated on the real Store by the harness only"],
         assumptions=["timestamps and durations fit int64 nanoseconds", "SyncFromHash/SyncFromHeight name headers that exist on the network (otherwise an error is the right answer)"],
     ),
+    "C09": dict(
+        props_files=["GoHeader/Props/C09.lean"], gen=["minHeadResponses", "maxUntrustedHeadRequests"],
+        canon=lambda l: l.split(" => ")[0], nontrivial=lambda l: " n=1 " not in l,
+        rule="real p2p.Exchange.Head against 1..6 scripted peers on a libp2p mocknet whose answers (main/fork heads at several heights, NOT_FOUND, garbage, invalid, wrong chain, unknown status, empty, reset, hang) "
+             "are RELEASED in a harness-chosen arrival order; trusted-peer path: all answer tuples over a 5-letter alphabet x all arrival orders for 1..2 (quick) / 1..3 (thorough) peers; "
+             "both paths (with/without WithTrustedHead incl. heads that verify ok / soft / hard against it): seeded random answers and orders for 1..6 peers; distinct = distinct (n, path, answers, order); non-trivial = more than one peer",
+        trusted_base=[KERNEL, GOTOLEAN + " for minHeadResponses", HARNESS_TB,
+                      "Exchange.Head's goroutines/channels are hand-modelled as a fold over the arrival order; the arrival order is enforced by releasing scripted answers one at a time (4 ms apart)",
+                      "modelled, not verified: libp2p mocknet, serde framing, peer shuffling (irrelevant to the fold)"],
+        assumptions=["an answer released 4 ms after the previous one is consumed after it (a disagreement is re-checked by the thorough tier's repeat)", "a peer that never answers makes Head return the context error unless a quorum formed first"],
+        timeout={"quick": 900, "thorough": 3000},
+    ),
 }
